@@ -104,6 +104,7 @@ var cfgMuts = []cfgMut{
 	{"bad:pfcp-addr-blank", true, func(d ymap) { sub(d, "pfcp")["addr"] = "10.0.0.1 and more" }},
 	{"bad:nodeid-absent", true, func(d ymap) { delete(sub(d, "pfcp"), "nodeID") }},
 	{"bad:nodeid-empty", true, func(d ymap) { sub(d, "pfcp")["nodeID"] = "" }},
+	{"bad:nodeid-ipv6", true, func(d ymap) { sub(d, "pfcp")["nodeID"] = "2001:db8::8" }}, // go-upf speaks IPv4: its node id must resolve to one
 	{"bad:nodeid-unresolvable", true, func(d ymap) { sub(d, "pfcp")["nodeID"] = "no-such-upf.core.sim" }},
 	{"bad:retrans-absent", true, func(d ymap) { delete(sub(d, "pfcp"), "retransTimeout") }},
 	{"bad:retrans-zero", true, func(d ymap) { sub(d, "pfcp")["retransTimeout"] = "0s" }},
